@@ -348,6 +348,7 @@ func checkC19(c *Ctx) {
 	lockDiscipline(c, func(k string) bool {
 		return k == "loadbalancer.LoadBalancer.ctx" || k == "loadbalancer.LoadBalancer.cancel"
 	})
+	c.stopIdempotent()
 }
 
 func (c *Ctx) probeContext() {
@@ -575,6 +576,7 @@ func checkC03(c *Ctx) {
 	c.Clause("the in-flight gauge taken in proxyRequest is released on panic exits too")
 	c.Clause("every http.Server / http.Transport / net.Dialer / http.Client literal sets its timeouts to a non-zero value, with a zero-default guard where configuration may be 0")
 	c.Clause("panics from forwarding are counted and re-raised by CircuitBreaker.Execute, not swallowed")
+	c.Clause("the response-writer wrappers a request is served through are created (or fully re-initialised) per request and their buffers start empty, so a response aborted mid-body cannot leak into a later one")
 	c.NotDecided("latency bounds; goroutine counts; that the request after a fault succeeds; behaviour of net/http under malformed input")
 
 	lockOrder(c)
@@ -619,6 +621,12 @@ func checkC03(c *Ctx) {
 			return ""
 		})
 	c.timeoutsConfigured()
+	ws := c.wrappers()
+	c.Floor("wrapper-fresh-per-request", len(ws), 4, "ResponseWriter wrappers")
+	for _, w := range ws {
+		c.rwFreshPerRequest(w)
+		c.bufferStartsEmpty(w)
+	}
 }
 
 // timeoutsConfigured: C03 clause 4.
@@ -759,4 +767,60 @@ func (c *Ctx) nonZeroDuration(fn *ssa.Function, v ssa.Value) string {
 		return "derived from configuration (" + d + ") that validation allows to be 0, with no default applied"
 	}
 	return "undecided: cannot show that " + d + " is non-zero"
+}
+
+// stopIdempotent: C19 "repeated shutdown calls are harmless".  Stop (with the pool shutdown inlined)
+// is walked twice in a row, the second time starting from the field facts the first run left
+// behind (one goroutine, nothing else running): the second run must not reach an operation that
+// cannot be repeated — closing a channel a second time panics.
+func (c *Ctx) stopIdempotent() {
+	p := c.P
+	stop := p.Fn("internal/loadbalancer", "LoadBalancer", "Stop")
+	construct := "loadbalancer.(*LoadBalancer).Stop/twice"
+	if stop == nil {
+		c.Missing("stop-idempotent", construct)
+		return
+	}
+	sp := &Spec{P: p, SeqFacts: true,
+		Event: func(in ssa.Instruction, fr *Frame) string {
+			if ci, ok := in.(ssa.CallInstruction); ok && CalleeName(ci) == "builtin:close" {
+				return "close(" + p.DescQ(ci.Common().Args[0], fr) + ")"
+			}
+			return ""
+		},
+		Cond: func(*ssa.If, *Frame) string { return "" },
+		Expand: func(callee *ssa.Function, site ssa.CallInstruction) bool {
+			pk := fnPkg(callee)
+			return pk != nil && strings.HasSuffix(pk.Pkg.Path(), "/internal/loadbalancer")
+		},
+	}
+	first := sp.Walk(stop)
+	var bad []string
+	nSecond := 0
+	for _, t1 := range first {
+		if t1.Exit != ExitNormal {
+			continue
+		}
+		closed := map[string]bool{}
+		for _, it := range t1.Items {
+			if strings.HasPrefix(it.Label, "close(") {
+				closed[it.Label] = true
+			}
+		}
+		for _, t2 := range sp.walkFn(&Frame{Fn: stop}, nil, false, t1.facts) {
+			nSecond++
+			for _, it := range t2.Items {
+				if closed[it.Label] {
+					bad = append(bad, p.InstrPos(it.Instr)+": a second Stop can execute "+it.Label+" again (closing a closed channel panics): the guard in front of it does not stay false after the first call")
+				}
+			}
+		}
+	}
+	c.Count("paths_enumerated", len(first)+nSecond)
+	bad = uniqueStrings(bad)
+	if len(bad) == 0 {
+		c.Pass("stop-idempotent", construct, p.Pos(stop.Pos()), fmt.Sprintf("%d first-run × second-run path pairs: no unrepeatable operation is reached twice", nSecond))
+	} else {
+		c.Fail("stop-idempotent", construct, p.Pos(stop.Pos()), bad[0], bad...)
+	}
 }
